@@ -54,4 +54,14 @@ CHECKS = {
         technique="reference-model monitor (CacheModel relation absent/data/meta-only/maybe) compared after every operation over a confusable key universe for every back-end and combinator; raw-file scanner for unique plaintext markers in XOR/Fernet cache directories; delta-debugged witnesses",
         text="Seeded histories of store / store_metadata / remove / clean with all reads after each step, 19 confusable keys, values of every built-in type, 17 configurations. Exploration.",
         note="Values restricted to what their state type represents losslessly; refused stores leave the key unspecified; metadata write after data may keep or drop the data."),
+    "C04": dict(
+        category=_EXPL, design_ref="DESIGN.md section 4, C04",
+        technique="self-differential monitor: every evaluation of seeded histories (evaluate plain / with input / with extra parameters, remove, clean over families of related queries) under each cache configuration vs the same evaluation under NoCache; recording proxy counts hits (no hit => vacuous => inconclusive)",
+        text="17 cache configurations x seeded histories over query families (prefixes, extensions, link sub-queries, respellings; failing, volatile, cache-disabling, mutating commands); every evaluation compared on value/failure, volatility, variables, file name, extension. Exploration.",
+        note="Commands deterministic; NoCache outcome is the reference (tied to the reference interpreter by C01)."),
+    "C05": dict(
+        category=_EXPL, design_ref="DESIGN.md section 4, C05",
+        technique="cache-inspection monitor after every evaluation of the C04 histories: every listed key and every canonical/as-typed spelling evaluated so far is fetched and classified by the reference interpreter (failing / volatile / caching off / non-canonical) and compared with a fresh NoCache evaluation",
+        text="Same histories as C04; after each evaluation thousands of keys are inspected per run; served data must be admissible, canonical and equal to a fresh evaluation. Exploration.",
+        note="Admissibility classification trusted from the reference interpreter; volatility of link arguments is not propagated (as in the library)."),
 }
